@@ -7,7 +7,7 @@
 From Coq Require Import ZArith List Bool Sorted.
 From Mesa Require Import Generated.Tables Model.Devs Model.DevsSpec
   Proofs.DevsProofs Proofs.DevsOrderProofs Proofs.DevsOnceProofs Proofs.DevsLiveProofs Proofs.DevsAtomicProofs
-  Proofs.DevsTopProofs Proofs.DevsTop14Proofs Model.Heap Model.DevsHeap Proofs.HeapProofs Proofs.DevsHeapProofs Proofs.DevsHeapSimProofs.
+  Proofs.DevsTopProofs Proofs.DevsTop14Proofs Model.Heap Model.DevsHeap Proofs.HeapProofs Proofs.DevsHeapProofs Proofs.DevsHeapSimProofs Proofs.DevsBridge.
 From Coq Require Import Permutation.
 Import ListNotations.
 Open Scope Z_scope.
@@ -312,6 +312,68 @@ Example C14_heap_array_example :
   map e_time (fold_left (fun l e => ev_insert e l) evs []) = [8; 16; 24; 32; 40] /\
   run_heap [] (map Push evs ++ [Pop; Pop; Pop]) = run_sorted [] (map Push evs ++ [Pop; Pop; Pop]).
 Proof. cbv zeta. repeat split; vm_compute; reflexivity. Qed.
+
+(* ---------------------------------------------------------------- code-level tie (T1) *)
+(* The guards and the time arithmetic of schedule_event_now/_relative/_absolute/_next_tick and _schedule_event, the
+   decision of the run_until loops of both classes, run_for's horizon, the tests of SimulationEvent.execute,
+   EventList.pop_event and EventList.peak_ahead are TRANSLATED from the working tree on every run
+   (harness/tables/devs_code.py -> the gen_ definitions of Generated.Tables); Proofs/DevsBridge.v proves them equal to the conditions of
+   Model/Devs.v and rewrites the model's functions with the generated pieces only (the src_ functions).  The statements that cannot be
+   translated (while True / try / except IndexError, heap calls, object glue) are checked as a statement skeleton. *)
+Theorem C14_source_skeleton : gen_devs_skeleton_ok = true.
+Proof. vm_compute. reflexivity. Qed.
+Print Assumptions C14_source_skeleton.
+
+(* what the source's own guards do with a schedule call: rejected iff its time is before the clock, else the event is
+   for exactly that time *)
+Theorem C14_source_guards : forall st k t,
+  src_sched_time st k t = if sched_time st k t <? s_time st then None else Some (sched_time st k t).
+Proof. exact src_sched_time_spec. Qed.
+Print Assumptions C14_source_guards.
+
+Theorem C14_source_schedule_is_model : forall cfg st k t p tag h body,
+  do_sched cfg st k t p tag h body = src_do_sched cfg st k t p tag h body.
+Proof. exact do_sched_of_source. Qed.
+Print Assumptions C14_source_schedule_is_model.
+
+Theorem C14_source_pop_is_model : forall l, pop_event l = src_pop l.
+Proof. exact pop_event_of_source. Qed.
+Print Assumptions C14_source_pop_is_model.
+
+Theorem C14_source_peek_is_model : forall n l, 1 <= n -> peak_ahead (Z.to_nat n) l = src_peak n l [].
+Proof. exact peak_ahead_of_source. Qed.
+Print Assumptions C14_source_peek_is_model.
+
+Theorem C14_source_execute_is_model : forall cfg st e st' l, e_step e = false -> execute cfg st e = (st', l) ->
+  execs l = if gen_execute_runs (e_cancelled e) (negb (memz (e_holder e) (s_dead st))) then [e] else [].
+Proof. exact execute_of_source. Qed.
+Print Assumptions C14_source_execute_is_model.
+
+Theorem C14_source_run_until_is_model : forall cfg fuel endt st,
+  run_loop cfg fuel endt st = src_run_loop cfg fuel endt st.
+Proof. exact run_loop_of_source. Qed.
+Print Assumptions C14_source_run_until_is_model.
+
+(* ... so the headline statements hold of the translated source code itself *)
+Theorem C14_no_past_of_source : forall st k t t', src_sched_time st k t = Some t' ->
+  s_time st <= t' /\ t' = sched_time st k t.
+Proof. exact no_past_of_source. Qed.
+Print Assumptions C14_no_past_of_source.
+
+Theorem C14_run_until_of_source : forall cfg fuel endt st st' l, inv st ->
+  src_run_loop cfg fuel endt st = (st', l, true) ->
+  s_time st' = endt /\
+  Forall (fun e => e_cancelled e = false -> src_until cfg (e_time e) endt = false) (s_events st') /\
+  Forall (fun e => e_cancelled e = false /\ src_until cfg (e_time e) endt = true) (execs l) /\
+  StronglySorted Z.le (clocks l).
+Proof. exact run_until_of_source. Qed.
+Print Assumptions C14_run_until_of_source.
+
+Theorem C14_peek_of_source : forall st n, inv st -> 1 <= n ->
+  StronglySorted ev_lt (src_peak n (s_events st) []) /\
+  Forall (fun e => e_cancelled e = false) (src_peak n (s_events st) []).
+Proof. exact peek_of_source. Qed.
+Print Assumptions C14_peek_of_source.
 
 (* ---------------------------------------------------------------- non-vacuity *)
 (* DEVSimulator: events 1..5 pushed in the order of defect #20 (times 1,3,2,5,4), a tie in time and priority
